@@ -1491,4 +1491,85 @@ theorem dequeueLoop_matches_source (cfg : Cfg) (now n : Nat) (k : String) (ks : 
     simp only [Gen.Src.c12DequeuePurges, Gen.Src.c12DequeueSkipsPending, Gen.Src.c12DequeueDue,
       Gen.Src.c12DequeueFull, ← expired_matches_source, ← elapsed_matches_source, decide_eq_true_eq]
 
+/-! ## node level: why a retryable failure is checked again within one retry tick -/
+
+/-- a `Dequeue` that comes too early for a record (not expired, interval not yet elapsed) leaves it exactly as
+it is — so the ticks of the retry flow before the interval is over do not disturb the scheduled retry -/
+theorem early_dequeue_keeps {cfg : Cfg} {log : List Ev} {q : Queue} (hreach : Reach cfg log q)
+    (now n : Nat) (order : List String) (k : String) (rec : Rec) (hk : get q k = some rec)
+    (hearly : now ≤ rec.updatedAt + rec.interval) (hlive : now ≤ rec.createdAt + cfg.expiration) :
+    get (dequeue cfg now n order q).1 k = some rec := by
+  obtain ⟨_, _, h3, h4, _⟩ := dequeue_spec cfg now n order q (wf_of_inv (reach_inv hreach))
+  cases hq' : get (dequeue cfg now n order q).1 k with
+  | none =>
+    have := h4 k rec hk hq'
+    simp only [expired, decide_eq_true_eq] at this
+    omega
+  | some rec' =>
+    obtain ⟨rec0, hr1, hr2⟩ := h3 k rec' hq'
+    rw [hk] at hr1; cases hr1
+    have hnot := pending_or_early_not_returned hreach now n order k rec hk (Or.inr (Or.inl hearly))
+    have hany : (dequeue cfg now n order q).2.any (fun p => decide (p.workID = k)) = false := by
+      rw [List.any_eq_false]
+      intro p hp
+      simpa using hnot p hp
+    rw [hr2, hany]
+    cases rec; simp
+
+/-- a periodic tick (`s`, `s + tick`, `s + 2·tick`, …) falls into every window `(a, a + tick]` that starts after
+its first firing: together with `early_dequeue_keeps`, `retry_scheduled` and `retry_not_before_interval` this is
+the node-level clause "checked again strictly after the interval and at most one retry tick later" -/
+theorem tick_in_window (s tick a : Nat) (ht : 0 < tick) (hs : s ≤ a) :
+    ∃ k, a < s + k * tick ∧ s + k * tick ≤ a + tick := by
+  refine ⟨(a - s) / tick + 1, ?_, ?_⟩
+  · have h1 := Nat.div_add_mod (a - s) tick
+    have h2 := Nat.mod_lt (a - s) ht
+    rw [Nat.succ_mul, Nat.mul_comm]
+    omega
+  · have h1 := Nat.div_mul_le_self (a - s) tick
+    rw [Nat.succ_mul]
+    omega
+
+/-- a unit of work is asked about at least once and at most once per answer of its script -/
+theorem planChecks_bounds (script : List Res) (h : script ≠ []) : 1 ≤ planChecks script ∧ planChecks script ≤ script.length := by
+  induction script with
+  | nil => exact absurd rfl h
+  | cons r rs ih =>
+    unfold planChecks
+    by_cases hr : r.retryableFail = true
+    · simp only [hr, if_true, List.length_cons]
+      cases rs with
+      | nil => simp [planChecks]
+      | cons a t => have := ih (by simp); omega
+    · simp [hr]
+
+/-- only an eligible success is ever staged, and only as the terminal answer: a retryable failure stages nothing -/
+theorem planStaged_sound (script : List Res) (c : CheckResult) (h : c ∈ planStaged script) :
+    ∃ r ∈ script, r.cr = c ∧ r.succEligible = true ∧ r.retryableFail = false := by
+  unfold planStaged at h
+  cases ht : planTerminal script with
+  | none => simp [ht] at h
+  | some r =>
+    simp only [ht] at h
+    by_cases he : r.succEligible = true
+    · simp only [he, if_true, List.mem_singleton] at h
+      subst h
+      have hmem : ∀ (sc : List Res) (x : Res), planTerminal sc = some x → x ∈ sc ∧ x.retryableFail = false := by
+        intro sc
+        induction sc with
+        | nil => intro x hx; simp [planTerminal] at hx
+        | cons a t ih =>
+          intro x hx
+          unfold planTerminal at hx
+          by_cases ha : a.retryableFail = true
+          · simp only [ha, if_true] at hx
+            obtain ⟨h1, h2⟩ := ih x hx
+            exact ⟨List.mem_cons_of_mem _ h1, h2⟩
+          · simp only [ha, Bool.false_eq_true, if_false, Option.some.injEq] at hx
+            subst hx
+            exact ⟨List.mem_cons_self, by simpa using ha⟩
+      obtain ⟨h1, h2⟩ := hmem script r ht
+      exact ⟨r, h1, rfl, he, h2⟩
+    · simp [he] at h
+
 end AutoVerif.C12
